@@ -312,10 +312,7 @@ def modulo (a b : Val) : Res Val :=
     | some false =>
       match ra, rb with
       | .int x, .int y => .ok (.int (x.tmod y))
-      | .int _, .long _ => .err .overflow
-      | .int _, _ => .err .typeMismatch
-      | .long _, _ => .err .overflow
-      | _, _ => .err .typeMismatch
+      | _, _ => .err .overflow
 
 /-- `Variant::and` (INTEGER operands only; the VM casts both operands to INTEGER first). -/
 def and (a b : Val) : Res Val :=
